@@ -2,6 +2,9 @@ package main
 
 func dispatchMore(mode string, lines []string) bool {
 	switch mode {
+	case "db3":
+		runDB3(lines)
+		return true
 	case "bag":
 		runBag(lines)
 		return true
